@@ -7,6 +7,11 @@ ALL = [f"C{i:02d}" for i in range(1, 21)]
 HOOK_COMMITS = subprocess.run(["git", "-C", "/repo", "log", "--format=%h %s", "--grep", "^verif hook"], capture_output=True, text=True).stdout.strip().splitlines()
 
 CHECKS = {
+ "C15": dict(
+   category="fault_enumeration", design="DESIGN.md §4 C15",
+   technique="proptest-generated configurations, producer step lists, writer pacing (gate) and fault scripts (failing write / flush indices) against a scripted underlying writer; invariants over its call log",
+   text="Queue capacity 1-8, lossy and non-lossy, 1-4 producer threads, steps {offer lines, stall the underlying writer, release it, settle, drop the guard at any point (also with a backlog, also with producers offering afterwards)} and a generated subset of failing write and flush attempts. Checked on the scripted writer's log: every write is one whole offered buffer, none twice, per-producer order kept; lossy: written + dropped_lines() == offered; non-lossy: nothing dropped and every accepted line written; a failed write loses only that line; after the guard drop returns every line accepted before it was attempted, a flush followed, the writer was dropped exactly once, nothing touched it afterwards and the drop did not run into its shutdown timeout.",
+   note="Real threads without schedule control: only schedule-independent invariants; a case that cannot progress in 10 s is inconclusive (exit 2). The gate is open while the guard is dropped (stalls beyond the documented 100 ms / 1 s timeouts are outside the property). Runs with 8 shards to keep timing benign. Found and fixed F11."),
  "C13": dict(
    category="exploration", design="DESIGN.md §4 C13",
    technique="proptest-generated (formatter, options, writer expression, multi-thread workload) cases; oracle = denotation of the writer expression over recording sinks + per-record predicates on the bytes of each individual write call",
